@@ -1,11 +1,11 @@
 (* C12 - state constructors, products and Fubini-Study metrics obey their algebraic laws.
    Only the property theorems, closed by `exact`, with their assumptions and non-vacuity examples.
-   PARTIAL: the triangle inequality of fs_dist and phase invariance / "1 for equal rays" of the fidelity are not
-   proved here (they are evaluated on the implementation's outputs by the correspondence). *)
+   The real-number theorems (Cauchy-Schwarz, normalise, fidelity, fs_dist incl. ray invariance and the triangle
+   inequality) are about the model over R; libm's acos and float rounding are measured by the correspondence. *)
 From Coq Require Import List NArith ZArith Bool Ring Reals Lra.
 From Coquelicot Require Import Complex.
 From QI Require Import Base.ListAux Base.Scalar Model.Outcome Model.Gates Model.OpSeq Model.StateOps Model.StateCtor
-  Proofs.C12a Proofs.C12b Run.RInst Run.ZInst.
+  Proofs.C12a Proofs.C12b Proofs.C12c Run.RInst Run.ZInst.
 Import ListNotations.
 Open Scope N_scope.
 
@@ -83,6 +83,38 @@ Theorem C12_fs_dist_symmetric : forall n a b, wf n a -> wf n b -> norm2_vec rops
   fs_dist a b = fs_dist b a.
 Proof. exact fs_dist_symmetric. Qed.
 Print Assumptions C12_fidelity_range. Print Assumptions C12_fs_dist_range. Print Assumptions C12_fs_dist_self.
+
+(* the fidelity in closed form: |<a|b>|^2 / (||a||^2 ||b||^2) *)
+Theorem C12_fidelity_closed_form : forall n a b, wf n a -> wf n b -> norm2_vec rops (vec a) <> 0%R -> norm2_vec rops (vec b) <> 0%R ->
+  fs_fidelity rops a b = Ok (cnorm2 rops (inner_vec rops (vec a) (vec b)) / (norm2_vec rops (vec a) * norm2_vec rops (vec b)))%R.
+Proof. exact fidelity_closed. Qed.
+(* phase invariance, and more: multiplying a state by ANY non-zero complex number z changes neither fidelity nor distance;
+   two states on one ray have fidelity 1 and distance 0 *)
+Theorem C12_fidelity_ray_invariant : forall n a a2 b (z : C (T:=R)), wf n a -> wf n a2 -> wf n b ->
+  vec a2 = map (cmul rops z) (vec a) -> cnorm2 rops z <> 0%R -> norm2_vec rops (vec a) <> 0%R -> norm2_vec rops (vec b) <> 0%R ->
+  fs_fidelity rops a2 b = fs_fidelity rops a b.
+Proof. exact fidelity_ray_invariant. Qed.
+Theorem C12_fidelity_equal_rays : forall n a b (z : C (T:=R)), wf n a -> wf n b ->
+  vec b = map (cmul rops z) (vec a) -> cnorm2 rops z <> 0%R -> norm2_vec rops (vec a) <> 0%R -> fs_fidelity rops a b = Ok 1%R.
+Proof. exact fidelity_equal_rays. Qed.
+Theorem C12_fs_dist_ray_invariant : forall n a a2 b (z : C (T:=R)), wf n a -> wf n a2 -> wf n b ->
+  vec a2 = map (cmul rops z) (vec a) -> cnorm2 rops z <> 0%R -> norm2_vec rops (vec a) <> 0%R -> norm2_vec rops (vec b) <> 0%R ->
+  fs_dist a2 b = fs_dist a b.
+Proof. exact fs_dist_ray_invariant. Qed.
+Theorem C12_fs_dist_equal_rays : forall n a b (z : C (T:=R)), wf n a -> wf n b ->
+  vec b = map (cmul rops z) (vec a) -> cnorm2 rops z <> 0%R -> norm2_vec rops (vec a) <> 0%R -> fs_dist a b = Ok 0%R.
+Proof. exact fs_dist_equal_rays. Qed.
+(* the triangle inequality, for any three states of one register on which the distances are defined (non-zero vectors) *)
+Theorem C12_fs_dist_triangle : forall n a b c dab dbc dac, wf n a -> wf n b -> wf n c ->
+  fs_dist a b = Ok dab -> fs_dist b c = Ok dbc -> fs_dist a c = Ok dac -> (dac <= dab + dbc)%R.
+Proof. exact fs_dist_triangle. Qed.
+Print Assumptions C12_fidelity_closed_form. Print Assumptions C12_fidelity_ray_invariant. Print Assumptions C12_fidelity_equal_rays.
+Print Assumptions C12_fs_dist_ray_invariant. Print Assumptions C12_fs_dist_equal_rays. Print Assumptions C12_fs_dist_triangle.
+
+Example C12_metric_hypotheses_satisfiable :
+  let a := mkState (T:=R) 1%N [(1, 0); (0, 0)]%R in let b := mkState (T:=R) 1%N [(0, 1); (0, 0)]%R in
+  wf 1 a /\ wf 1 b /\ fs_dist a b = Ok 0%R /\ fs_dist b a = Ok 0%R /\ fs_dist a a = Ok 0%R.
+Proof. exact triangle_hyps_satisfiable. Qed.
 
 (* constructors: |n> has amplitude 1 at index n and 0 elsewhere; the Hartree-Fock index sets exactly the e high-order bits *)
 Theorem C12_basis_vector :
